@@ -66,7 +66,7 @@ Example C01_nonvacuous :
   let p := {| ip := 281470698652161; port := 7000 |} in
   let bad := {| ip := 281470698652163; port := 7000 |} in
   snd (run cfg (init 100)
-    [EReq c 1 cr (RqAllocate (APresent 17%N) AAbsent AAbsent false (Some 49152%N)) false;
+    [EReq c 1 cr (RqAllocate (APresent 17%N) AAbsent AAbsent false (Some 49152%N) false AAbsent 0%N) false;
      EReq c 2 cr (RqCreatePerm [PeerOk p]) false;
      EReq c 3 cr (RqCreatePerm [PeerOk bad]) false;
      ESend c (Some (PeerOk p)) (Some [1;2;3]%N);
